@@ -793,16 +793,27 @@ def subst_formula(f, mapping):
     if isinstance(f, ACmp):
         return mk_cmp(subst_term(f.base, mapping), f.op, Num(f.k))
     if isinstance(f, AIn):
-        return AIn(subst_term(f.x, mapping), subst_term(f.container, mapping))
+        x, c = subst_term(f.x, mapping), subst_term(f.container, mapping)
+        if isinstance(x, Num) and isinstance(c, (TupleT, Fresh)) and c.items and all(isinstance(i, Num) for i in c.items) \
+                and getattr(c, 'detail', None) is None:
+            return FConst(any(i.value == x.value for i in c.items))
+        return AIn(x, c)
     if isinstance(f, AIs):
         return AIs(subst_term(f.a, mapping), subst_term(f.b, mapping))
     if isinstance(f, AEq):
-        return mk_cmp(subst_term(f.a, mapping), '==', subst_term(f.b, mapping))
+        a, b = subst_term(f.a, mapping), subst_term(f.b, mapping)
+        if any(isinstance(t, App) and t.fn == 'type' for t in (a, b)):
+            return AEq(a, b)
+        return mk_cmp(a, '==', b)
     if isinstance(f, ATruthy):
         return ATruthy(subst_term(f.t, mapping))
     if isinstance(f, ADiv):
         e, _ = sign_normalise(subst_term(f.e, mapping))
-        return ADiv(subst_term(f.mod, mapping), e)
+        m = subst_term(f.mod, mapping)
+        if isinstance(e, Num) and isinstance(m, Num) and isinstance(e.value, Fraction) and isinstance(m.value, Fraction) \
+                and m.value != 0 and e.value.denominator == 1 and m.value.denominator == 1:
+            return FConst(int(e.value) % int(m.value) == 0)
+        return ADiv(m, e)
     if isinstance(f, AIsInst):
         return AIsInst(subst_term(f.x, mapping), subst_term(f.t, mapping))
     return f
